@@ -20,15 +20,17 @@ pub struct GenOpts {
     pub early_exit: bool,
     pub deftype: bool,
     pub fuel_loops: bool,
+    /// END / STOP / early RETURN statements inside the program body
+    pub allow_end: bool,
 }
 
 impl GenOpts {
     pub fn full() -> GenOpts {
-        GenOpts { size: 30, input: true, data: true, fns: true, arrays: true, errors: true, stop: false, layout_dep: true, tron: true, early_exit: true, deftype: true, fuel_loops: true }
+        GenOpts { size: 30, input: true, data: true, fns: true, arrays: true, errors: true, stop: false, layout_dep: true, tron: true, early_exit: true, deftype: true, fuel_loops: true, allow_end: true }
     }
     /// No errors, no column-dependent output, no TRON: for differential checks.
     pub fn plain() -> GenOpts {
-        GenOpts { size: 24, input: true, data: true, fns: true, arrays: true, errors: false, stop: false, layout_dep: false, tron: false, early_exit: true, deftype: false, fuel_loops: true }
+        GenOpts { size: 24, input: true, data: true, fns: true, arrays: true, errors: false, stop: false, layout_dep: false, tron: false, early_exit: true, deftype: false, fuel_loops: true, allow_end: true }
     }
 }
 
@@ -467,7 +469,8 @@ impl<'a, 'b> G<'a, 'b> {
         let mut v = vec![];
         for i in 0..n {
             let last = i + 1 == n;
-            let s = match self.t.weighted(&[10, if last && depth > 0 { 3 } else { 0 }, 2, if self.in_sub.is_some() && last { 1 } else { 0 }, if last { 1 } else { 0 }]) {
+            let ends = self.o.allow_end;
+            let s = match self.t.weighted(&[10, if last && depth > 0 { 3 } else { 0 }, 2, if self.in_sub.is_some() && last && ends { 1 } else { 0 }, if last && ends { 1 } else { 0 }]) {
                 0 => self.simple(),
                 1 => self.if_inline(depth - 1),
                 2 => match self.gosub_target() {
@@ -575,7 +578,7 @@ impl<'a, 'b> G<'a, 'b> {
                 if self.o.errors && !self.error_planted { 1 } else { 0 },
                 if self.o.stop { 1 } else { 0 },
                 if deep { 1 } else { 0 },
-                1,
+                if self.o.allow_end { 1 } else { 0 },
             ];
             match self.t.weighted(&w) {
                 0 => {
